@@ -44,6 +44,7 @@ static std::vector<Failure> g_failures;
 static std::map<std::string, KnownHit> g_known_hits;
 static std::vector<std::string> g_domains;
 static std::string g_phase = "?";
+static std::map<std::string, uint64_t> g_digest;   // per (target/op): hash over the outputs of the deterministic phase
 static uint64_t g_max_failures = 12;
 
 static uint64_t hash_case(const VpCase& c) {
@@ -67,11 +68,72 @@ static int known_index(const std::string& sig) {
     return -1;
 }
 
+// ---- faults as observations: a signal raised inside a Case (SIGSEGV/SIGBUS/SIGFPE/SIGILL/SIGTRAP; UBSan
+// is built in trap mode, so undefined behaviour arrives here as SIGILL) becomes an outcome of that
+// Case.  A fatal ASan error dumps the current Case before the process dies.
+#include <csignal>
+#include <csetjmp>
+#include <ucontext.h>
+#include <unistd.h>
+static bool g_ub_is_violation = false;
+static std::map<std::string, uint64_t> g_ub_reports;
+static std::string g_out_path;
+static VpCase g_current; static volatile sig_atomic_t g_in_run = 0;
+static sigjmp_buf g_jmp; static volatile int g_sig; static volatile uintptr_t g_sig_pc, g_sig_addr;
+static std::string case_text(const VpCase& c);
+static void on_signal(int sig, siginfo_t* si, void* uc) {
+    if (!g_in_run) { signal(sig, SIG_DFL); raise(sig); return; }
+    g_sig = sig;
+    g_sig_addr = (uintptr_t)si->si_addr;
+    g_sig_pc = (uintptr_t)((ucontext_t*)uc)->uc_mcontext.gregs[REG_RIP];
+    siglongjmp(g_jmp, 1);
+}
+#ifdef VP_SAN
+extern "C" void __sanitizer_set_death_callback(void (*)(void));
+static void on_death() {
+    if (!g_in_run || g_out_path.empty()) return;
+    std::string p = g_out_path + ".crash";
+    FILE* f = fopen(p.c_str(), "w");
+    if (f) { fprintf(f, "%s\n", case_text(g_current).c_str()); fclose(f); }
+}
+#endif
+static void san_init() {
+    struct sigaction sa; std::memset(&sa, 0, sizeof sa);
+    sa.sa_sigaction = on_signal; sa.sa_flags = SA_SIGINFO | SA_NODEFER | SA_ONSTACK;
+    static char altstack[1 << 16];
+    stack_t ss; ss.ss_sp = altstack; ss.ss_size = sizeof altstack; ss.ss_flags = 0; sigaltstack(&ss, nullptr);
+    for (int sg : {SIGSEGV, SIGBUS, SIGFPE, SIGILL, SIGTRAP}) sigaction(sg, &sa, nullptr);
+#ifdef VP_SAN
+    __sanitizer_set_death_callback(on_death);
+#endif
+}
+static const char* signame(int s) { return s == SIGSEGV ? "SIGSEGV" : s == SIGBUS ? "SIGBUS" : s == SIGFPE ? "SIGFPE" : s == SIGILL ? "SIGILL" : s == SIGTRAP ? "SIGTRAP" : "SIG?"; }
+
 static void run_raw(const VpCase& c, VpOutcome& o) {
     std::memset(&o, 0, sizeof o);
     o.bad_lane = -1;
     if (c.target >= g_ntargets || c.op >= g_nops || !g_targets[c.target].present) { o.status = 2; return; }
-    vp_run(&c, &o);
+    g_current = c;
+    if (sigsetjmp(g_jmp, 1) == 0) {
+        g_in_run = 1;
+        vp_run(&c, &o);
+        g_in_run = 0;
+    } else {
+        g_in_run = 0;
+        // the check may have declared, before calling AVEL, that a trap at this point is allowed
+        // (o.tag starts with "trap-ok")
+        bool ub = (g_sig == SIGILL || g_sig == SIGTRAP);
+        char where[96]; std::snprintf(where, sizeof where, "pc=0x%lx addr=0x%lx", (unsigned long)g_sig_pc, (unsigned long)g_sig_addr);
+        if (std::strncmp(o.tag, "trap-ok", 7) == 0) { o.status = 0; o.tag[0] = 0; return; }
+        if (ub) {
+            char k[64]; std::snprintf(k, sizeof k, "trap pc=0x%lx", (unsigned long)g_sig_pc);
+            ++g_ub_reports[k];
+            if (!g_ub_is_violation) { o.status = 0; o.tag[0] = 0; o.msg[0] = 0; return; }
+        }
+        o.status = 1; o.bad_lane = -1;
+        std::snprintf(o.tag, sizeof o.tag, "%s%s", ub ? "ub-trap:" : "signal:", signame(g_sig));
+        std::snprintf(o.msg, sizeof o.msg, "%s raised inside the operation (%s)%s", signame(g_sig), where, ub ? " - undefined behaviour trapped by -fsanitize=undefined" : "");
+    }
 }
 
 // ------------------------------------------------------------------------------------------------
@@ -181,6 +243,13 @@ static bool account(const VpCase& c, bool allow_minimise = true) {
             if (g_distinct.size() >= DISTINCT_CAP) g_saturated = true;
         }
         add_sample(c, o);
+    }
+    if (g_phase == "enum") {
+        // digest of (inputs, actual outputs) for the cross-configuration differential
+        uint64_t& d = g_digest[std::string(g_targets[c.target].name) + "/" + g_ops[c.op].name];
+        uint64_t h = hash_case(c);
+        for (unsigned i = 0; i < g_targets[c.target].width; ++i) { h ^= o.actual[i] + 0x9E3779B97F4A7C15ull + (h << 6) + (h >> 2); }
+        d = (d ^ h) * 1099511628211ull + 1;
     }
     if (o.status == 0) return true;
     std::string sig = sig_of(c, o);
@@ -540,7 +609,12 @@ static void write_json(const std::string& path, const std::string& mode, uint64_
     { bool f = true; for (auto& kv : g_per_op) { os << (f ? "" : ",") << "\"" << kv.first << "\":" << kv.second; f = false; } }
     os << "},\"domains\":[";
     for (size_t i = 0; i < g_domains.size(); ++i) os << (i ? "," : "") << "\"" << jesc(g_domains[i]) << "\"";
-    os << "],\"samples\":[";
+    os << "],\"ub_reports\":{";
+    { bool f = true; for (auto& kv : g_ub_reports) { os << (f ? "" : ",") << "\"" << jesc(kv.first) << "\":" << kv.second; f = false; } }
+    os << "},\"digests\":{";
+    { bool f = true; for (auto& kv : g_digest) { os << (f ? "" : ",") << "\"" << kv.first << "\":\"" << std::hex << kv.second << std::dec << "\""; f = false; } }
+    os << "}";
+    os << ",\"samples\":[";
     for (size_t i = 0; i < g_samples.size(); ++i) os << (i ? "," : "") << "{\"phase\":\"" << g_samples[i].second << "\",\"case\":" << case_json(g_samples[i].first) << "}";
     os << "],\"failures\":[";
     for (size_t i = 0; i < g_failures.size(); ++i) {
@@ -581,12 +655,15 @@ int main(int argc, char** argv) {
         else if (a == "--case") casetext = next();
         else if (a == "--regress") regress_file = next();
         else if (a == "--max-failures") g_max_failures = strtoull(next().c_str(), 0, 10);
+        else if (a == "--ub-violation") g_ub_is_violation = atoi(next().c_str()) != 0;
     }
     g_targets = vp_targets(&g_ntargets);
     g_ops = vp_ops(&g_nops);
     g_classes = vp_class_names(&g_nclasses);
     g_class_counts.assign(g_nclasses, 0);
     auto t0 = std::chrono::steady_clock::now();
+    g_out_path = out;
+    if (mode != "list") san_init();
     if (mode == "list") {
         for (uint32_t i = 0; i < g_ntargets; ++i) printf("target %u %s present=%u\n", i, g_targets[i].name, g_targets[i].present);
         for (uint32_t i = 0; i < g_nops; ++i) printf("op %u %s\n", i, g_ops[i].name);
